@@ -143,6 +143,56 @@ pub struct StreamsState {
 
 #[cfg(feature = "quinn_rs_quinn_verif")]
 impl StreamsState {
+    /// Facts about one stream id for the frame-rules model (read-only)
+    pub(in crate::connection) fn verif_probe(&self, id: StreamId) -> crate::connection::verif::StreamProbe {
+        let mut p = crate::connection::verif::StreamProbe {
+            next_local: self.next[id.dir() as usize],
+            max_remote: self.max_remote[id.dir() as usize],
+            data_recvd: self.data_recvd,
+            local_max_data: self.local_max_data,
+            stream_receive_window: self.stream_receive_window,
+            ..Default::default()
+        };
+        match self.recv.get(&id) {
+            None => {}
+            Some(r) => match r.as_ref().and_then(|r| r.as_open_recv()) {
+                None => p.recv = 1,
+                Some(r) => {
+                    let ((reset, size, _), sent_max, end, stopped) = r.verif_view();
+                    p.recv = 2;
+                    p.recv_end = end;
+                    p.recv_final = size;
+                    p.recv_reset = reset;
+                    p.recv_stopped = stopped;
+                    p.recv_sent_max = sent_max;
+                }
+            },
+        }
+        p.send = match self.send.get(&id) {
+            None => 0,
+            Some(None) => 1,
+            Some(Some(_)) => 2,
+        };
+        p
+    }
+
+    /// (`next_remote`, `max_remote`)
+    pub(in crate::connection) fn verif_remote_counts(&self) -> ([u64; 2], [u64; 2]) {
+        (self.next_remote, self.max_remote)
+    }
+
+    /// Sum of the chunk lengths buffered by every receive-stream assembler
+    pub(in crate::connection) fn verif_recv_buffered(&self) -> usize {
+        self.recv
+            .values()
+            .filter_map(|r| r.as_ref().and_then(|r| r.as_open_recv()))
+            .map(|r| r.assembler.verif_view().2.iter().map(|c| (c.1 - c.0) as usize).sum::<usize>())
+            .sum()
+    }
+}
+
+#[cfg(feature = "quinn_rs_quinn_verif")]
+impl StreamsState {
     /// Accounting projection for the verification snapshot (read-only)
     pub(in crate::connection) fn verif_snap(&self) -> crate::connection::verif::StreamsSnap {
         let mut send_offsets: Vec<(u64, u64, u64)> = self
